@@ -19,12 +19,13 @@ Theorem C19_generated_schema_probes :
 Proof. vm_compute. reflexivity. Qed.
 
 (* AvroWriter.write: fix the descriptor and create schema + writer on the first record; refuse another
-   descriptor BEFORE handing the record to fastavro; flush: only if there is a writer; close: a placeholder
-   writer if nothing was written, flush, close the file, forget file and writer *)
+   descriptor BEFORE handing the record to fastavro; encode the record into a scratch buffer (DryRun) BEFORE it is
+   appended to the block buffer; flush: only if there is a writer; close: a placeholder writer if nothing was
+   written, flush, close the file, forget file and writer *)
 Theorem C19_generated_writer_code :
   avro_code = {|
     code_write := [When CNoDesc [Do SetDesc; Do MakeSchema; Do ParseSchema; Do MakeWriter]; When CDescDiffers [Do RaiseMixed];
-                   Do WriterWrite];
+                   Do DryRun; Do WriterWrite];
     code_flush := [When CHasWriter [Do WriterFlush]];
     code_close := [When CHasFp [When CNoWriter [Do MakeEmptyWriter]; Do CallFlush]; When CHasFpNotStdout [Do FpClose];
                    Do SetFpNone; Do SetWriterNone] |}.
@@ -105,12 +106,11 @@ Proof. intros to_f32 of_int r ops H. split; [exact (write_unmapped to_f32 of_int
 
 (* a value the mapping cannot represent -- an integer outside the range of the Avro type AVRO_TYPE_MAP gives the
    field (uint16/uint32 -> 32-bit int, varint/filesize/unix_file_mode -> 64-bit long), text without a UTF-8
-   encoding, a digest: the record is refused and NO record is added (at most uncounted bytes) *)
+   encoding, a digest: the record is refused and the writer's state (buffer, file) is UNCHANGED *)
 Theorem C19_refuses_out_of_range_integer : forall to_f32 of_int d sch st r,
   descriptor_to_schema avro_cfg d = Some sch -> est d sch st -> desc_eqb d (r_desc r) = true ->
   well_typed_rec avro_cfg d (r_vals r) = true -> representable_rec avro_cfg d (r_vals r) = false ->
-  exists e st', step to_f32 of_int avro_cfg avro_code st (OWrite r) = (st', Refused e)
-                /\ (st' = st \/ st' = add_pending st IJunk).
+  exists e, step to_f32 of_int avro_cfg avro_code st (OWrite r) = (st, Refused e).
 Proof. exact write_unrepresentable. Qed.
 Theorem C19_integer_ranges :
   (forall t a z, lookup t (cfg_avro_map avro_cfg) = Some a -> representable avro_cfg t (VInt z) = int_range_of a z)
@@ -150,16 +150,15 @@ Theorem C19_roundtrip : forall to_f32 of_int r0 rs sch,
     /\ read_flow of_int avro_cfg f = FlowRead d (map (fun r => map (normalise to_f32) (r_vals r)) (r0 :: rs)) REnd.
 Proof. exact roundtrip_clean. Qed.
 
-(* THE GENERAL SESSION (writes of any records incl. unrepresentable ones and other descriptors, flushes, close),
-   under the hypothesis that excludes exactly the known-finding class "a write is accepted behind a value-refused
-   write of the same block" (safe_session) and instants outside year 1..9999: every operation gets the decision
-   the property demands, and the file reads back as exactly the representable records of d, normalised *)
-Theorem C19_roundtrip_with_refusals_partial : forall to_f32 of_int r0 rest sch,
+(* THE GENERAL SESSION, full statement: writes of any records (unrepresentable ones and other descriptors
+   anywhere) and flushes in any order, then close.  Every operation gets the decision the property demands, and
+   the file reads back as exactly the representable records of d, normalised.  (Only hypothesis on values besides
+   typedness: accepted instants lie within year 1..9999 -- known finding below.) *)
+Theorem C19_roundtrip_with_refusals : forall to_f32 of_int r0 rest sch,
   let d := r_desc r0 in
   let ops := OWrite r0 :: rest in
   wf_descriptor d = true -> descriptor_to_schema avro_cfg d = Some sch ->
   (forall r, In (OWrite r) ops -> desc_eqb d (r_desc r) = true -> well_typed_rec avro_cfg d (r_vals r) = true) ->
-  safe_session avro_cfg d false ops = true ->
   forallb (fun r => times_ok (r_vals r)) (accepted avro_cfg d ops) = true ->
   exists f outs,
     session to_f32 of_int avro_cfg avro_code ops = (f, outs, Accepted)
@@ -175,16 +174,19 @@ Definition noint (z : Z) : N := 0%N.
 Definition res_none : list value := [VNone; VNone; VTime 1588660193123456 19807000000; VInt 1].
 Definition d_ab : descriptor := Desc "test/a" [("string", "a"); ("uint32", "b")].
 
-(* (1) refused record, then an accepted one in the same block: the refused record's first field stays in the block
-   buffer; the reader decodes the accepted record from the wrong offset (model: unspecified = RCorrupt; the
-   implementation yields a record a='two' b=4 that nobody wrote) *)
-Theorem C19_refused_then_accepted_refuted :
-  let ops := [OWrite (Rec d_ab ([VText [116; 119; 111]%N; VInt 2147483648] ++ res_none));
-              OWrite (Rec d_ab ([VText [2; 2; 2; 2]%N; VInt 7] ++ res_none))] in
+(* (repaired in the repository, commit 15e4336) WITHOUT the dry run -- code_without_dry_run is AvroWriter.write as it
+   was -- a refused record left its first fields in the block buffer and a record accepted afterwards was decoded
+   from the wrong offset (model: RCorrupt; the implementation yielded a record a='two' b=4 that nobody wrote); with
+   the generated code the same session reads back exactly the accepted record *)
+Theorem C19_without_dry_run_refuted :
+  let ops := w_ops_refused_then_accepted in
   (forall r, In (OWrite r) ops -> well_typed_rec avro_cfg d_ab (r_vals r) = true)
+  /\ snd (fst (session id32 noint avro_cfg code_without_dry_run ops)) = [Refused EValue; Accepted]
+  /\ read_flow noint avro_cfg (fst (fst (session id32 noint avro_cfg code_without_dry_run ops))) = FlowRead d_ab [] RCorrupt
   /\ snd (fst (session id32 noint avro_cfg avro_code ops)) = [Refused EValue; Accepted]
-  /\ read_flow noint avro_cfg (fst (fst (session id32 noint avro_cfg avro_code ops))) = FlowRead d_ab [] RCorrupt.
-Proof. exact refuted_refused_then_accepted. Qed.
+  /\ read_flow noint avro_cfg (fst (fst (session id32 noint avro_cfg avro_code ops)))
+     = FlowRead d_ab [[VText [2; 2; 2; 2]%N; VInt 7; VNone; VNone; VTime 1588660193123456 0; VInt 1]] REnd.
+Proof. exact refuted_without_dry_run. Qed.
 
 (* (formerly a finding, repaired in the repository: flush() before the first write installed a placeholder
    writer) flush() before the first write does nothing: a session with leading flushes is the session without *)
@@ -196,7 +198,7 @@ Theorem C19_initial_flush_harmless : forall to_f32 of_int ops,
         snd (session to_f32 of_int avro_cfg avro_code ops)).
 Proof. intros to_f32 of_int ops. split; [exact (flush_before_write_noop to_f32 of_int)|exact (session_leading_flush to_f32 of_int ops)]. Qed.
 
-(* (2) a timestamp whose UTC instant lies outside year 1..9999 (0001-01-01T00:00+14:00) is accepted and stored as
+(* (1) a timestamp whose UTC instant lies outside year 1..9999 (0001-01-01T00:00+14:00) is accepted and stored as
    the right number of microseconds, but no Python reader can rebuild it: reading fails at that record *)
 Theorem C19_timestamp_out_of_python_range_refuted :
   let d := Desc "test/t" [("datetime", "ts")] in
@@ -206,7 +208,7 @@ Theorem C19_timestamp_out_of_python_range_refuted :
   /\ read_flow noint avro_cfg (fst (fst (session id32 noint avro_cfg avro_code [OWrite r]))) = FlowRead d [] RFail.
 Proof. exact refuted_timestamp. Qed.
 
-(* (3) digest is in AVRO_TYPE_MAP, but its packed form (a 3-tuple) is refused by fastavro: "records over the mapped
+(* (2) digest is in AVRO_TYPE_MAP, but its packed form (a 3-tuple) is refused by fastavro: "records over the mapped
    types are accepted" is false for digest fields *)
 Theorem C19_digest_unwritable_refuted :
   let d := Desc "test/d" [("digest", "dg")] in
@@ -215,15 +217,14 @@ Theorem C19_digest_unwritable_refuted :
   /\ snd (fst (session id32 noint avro_cfg avro_code [OWrite r])) = [Refused EValue].
 Proof. exact refuted_digest. Qed.
 
-(* non-vacuity: the hypotheses of the session theorems are satisfiable (a two-record session with one refusal
-   followed by a flush) *)
+(* non-vacuity: the hypotheses of the session theorem are satisfiable (refusals anywhere, no flush needed) *)
 Example C19_hyp_satisfiable :
   let r1 := Rec d_ab ([VText [111]%N; VInt 1] ++ res_none) in
   let r2 := Rec d_ab ([VText [116]%N; VInt 2147483648] ++ res_none) in
-  let ops := [OWrite r1; OWrite r2; OFlush; OWrite r1] in
+  let ops := [OWrite r1; OWrite r2; OWrite r1; OFlush; OWrite r2] in
   wf_descriptor d_ab = true /\ mappable avro_cfg d_ab = true
-  /\ safe_session avro_cfg d_ab false ops = true
   /\ forallb (fun r => well_typed_rec avro_cfg d_ab (r_vals r)) [r1; r2] = true
+  /\ forallb (fun r => times_ok (r_vals r)) (accepted avro_cfg d_ab ops) = true
   /\ List.length (accepted avro_cfg d_ab ops) = 2%nat.
 Proof. repeat split; reflexivity. Qed.
 
